@@ -6,7 +6,7 @@
 From Coq Require Import List ZArith.
 Import ListNotations.
 From KDB Require Import Util PropDefs PropProofs.
-From KDB Require PropEq PropEqProofs.
+From KDB Require PropEq PropEqProofs PropSim PropNotify.
 
 Theorem C03_equal_is_silent :
   forall fn rtl f w p pr, lookup (w_props w) p = Some pr -> set_helper fn rtl (S f) w p (pr_value pr) = (w, None).
@@ -28,6 +28,19 @@ Theorem C03_protocol :
       w_tables w' = w_tables w /\ w_binds w' = w_binds w.
 Proof. exact set_protocol. Qed.
 Print Assumptions C03_protocol.
+
+(* the same protocol when evaluator-driven bindings READ the property (coq/PropNotify.v): their nodes are only marked and nothing is
+   recorded for them; observers do not act, every live binding is evaluator-driven *)
+Theorem C03_protocol_with_evaluator_driven_readers :
+  forall fn rtl f w p v pr w',
+    PropSim.NOACT w -> PropNotify.lazyw w -> lookup (w_props w) p = Some pr -> v <> pr_value pr ->
+    set_helper fn rtl (S f) w p v = (w', None) ->
+    w_trace w' = rev (map (fun label => EvNotify label KChanged [v] (Some v)) (all_labels w (pr_changed pr)))
+                 ++ rev (map (fun label => EvNotify label KAbout [pr_value pr; v] (Some (pr_value pr))) (all_labels w (pr_about pr)))
+                 ++ w_trace w /\
+    lookup (w_props w') p = Some (prop_set_value pr v) /\ (forall q, q <> p -> lookup (w_props w') q = lookup (w_props w) q).
+Proof. exact PropNotify.lazy_set_protocol. Qed.
+Print Assumptions C03_protocol_with_evaluator_driven_readers.
 
 (* set(), operator= and operator>> are the same call; a binding writes through the same setHelper (definition of
    binding_evaluate) *)
